@@ -156,6 +156,9 @@ def run(ctx: Ctx):
         "fixture files containing a backslash or percent sign are excluded from the rewrite comparison (known findings C07-K2 / C08-K1 would be re-reported through a different fold position)",
         "BOM applies to bytes input only; a str is not given a leading U+FEFF",
     ]
+    # ------------------------------------------------------------- FRESH: history independence of returned objects (spec/Fresh.tla)
+    from vf import fresh
+    fresh.step(ctx, "C09")
     return ctx.finish(rule=(
         "MC_Wire: all lists of <=2/3 lines from a 6-line pool x 288 rendering choices; generated calendars (7 shapes, 42-entry property "
         "pool) compared across renderings under both providers; fixture calendars under random rewrites; non-trivial = a rendering "
